@@ -1,10 +1,11 @@
 #!/bin/sh
+# (OPENBLAS/OMP threads pinned to 1: multi-threaded OpenBLAS in forked xdist workers can spin forever in blas_memory_alloc under load)
 # usage: tools/confirm_suite.sh <outdir>...  : applies each patch in a scratch worktree and runs the repo test-suite
 for dir in "$@"; do
   wt=/tmp/seedsuite_$$
   git -C /repo worktree add -q "$wt" HEAD || continue
   if git -C "$wt" apply "$dir/patch.diff"; then
-    (cd "$wt" && PYTHONPATH="$wt" timeout 2400 /venv/bin/python -m pytest -q -p no:cacheprovider -n 10 --timeout=900 2>&1 | grep -E "^(FAILED|ERROR)|passed|failed" | tail -6) > "$dir/suite_confirm.txt" 2>&1
+    (cd "$wt" && OPENBLAS_NUM_THREADS=1 OMP_NUM_THREADS=1 PYTHONPATH="$wt" timeout 2400 /venv/bin/python -m pytest -q -p no:cacheprovider -n 10 --timeout=900 2>&1 | grep -E "^(FAILED|ERROR)|passed|failed" | tail -6) > "$dir/suite_confirm.txt" 2>&1
   else
     echo "PATCH DOES NOT APPLY TO CURRENT HEAD" > "$dir/suite_confirm.txt"
   fi
